@@ -184,6 +184,9 @@ class Stack:
         Gets the stack trace from
         the entire stack pile.
         """
+        # A stack that has not started running yet (e.g. while a loop evaluates
+        # its condition or binds its counter) has no line to report.
+        stack_pile = [i for i in stack_pile if i.current_line]
         start_index = (
             0 if limit == -1 or len(stack_pile) <= limit else len(stack_pile) - limit
         )
